@@ -22,4 +22,10 @@ type Convergen interface {
 	SkipStructMemberArg(*Src) *Dst
 	// :skip /^Meta\.(Tags|Inner)$/
 	SkipRegexpStructMembers(Src) Dst
+	// a :skip written before the :case:off that governs it
+	// :style arg
+	// :skip id
+	// :skip /^meta\.NOTE$/
+	// :case:off
+	SkipThenCaseOff(*Src) *Dst
 }
